@@ -219,7 +219,7 @@ kani("bits::queue_roundtrip", ["C16", "C18"], fns=[S + "QueueEncoder::write_bit"
      text="export == LSB-first packing zero padded; decoder yields the bits in order, then padding zeros, then None")
 kani("bits::stack_guard", ["C08", "C16"], fns=[S + "StackCoderGuard::new", S + "StackCoderGuard::drop"], text="guard view == export; after drop, write+export == uninspected twin")
 kani("bits::queue_guard", ["C08", "C16"], fns=[S + "QueueEncoderGuard::new", S + "QueueEncoderGuard::drop"], text="guard view == export; after drop, write+export == uninspected twin")
-kani("bits::exp_golomb_u8", ["C16"], tier="thorough", timeout=1800, fns=["symbol/exp_golomb.rs::ExpGolomb::{encode_symbol_prefix,encode_symbol_suffix,decode_symbol}"],
+kani("bits::exp_golomb_u8", ["C16"], timeout=1800, fns=["symbol/exp_golomb.rs::ExpGolomb::{encode_symbol_prefix,encode_symbol_suffix,decode_symbol}"],
      text="for every u8 value incl. MAX: prefix bits == textbook codeword; queue and stack round trips return the value")
 kani("bits::exp_golomb_u16", ["C16"], tier="thorough", timeout=3600, fns=["symbol/exp_golomb.rs::ExpGolomb<u16>"], text="same for every u16 value")
 HF = "symbol/huffman.rs::"
@@ -237,7 +237,7 @@ for m, tier in (("uniform_u8_p8", "quick"), ("uniform_u8_p5", "quick"), ("unifor
     kani(f"models::{m}::valid", ["C03", "C09", "C05", "C20"], tier=tier, fns=[M + "uniform.rs::UniformModel::{new,left_cumulative_and_probability,quantile_function}"],
          text="for every valid range and EVERY usize symbol: None iff symbol >= range; intervals consecutive, non-empty, tile [0,2^P), none is 2^P; quantile_function == encoder view")
     kani(f"models::{m}::table_small", ["C05"], tier=tier, kind="bounded", bound="range <= 4", fns=[M + "uniform.rs::UniformModel::symbol_table"])
-    kani(f"models::{m}::invalid", ["C19"], tier=tier, fns=[M + "uniform.rs::UniformModel::new"], allow=PANIC_UNIFORM,
+    kani(f"models::{m}::invalid", ["C19", "C20"], tier=tier, fns=[M + "uniform.rs::UniformModel::new"], allow=PANIC_UNIFORM,
          text="range in {0,1} or > 2^P: new() panics, never returns a model")
 FT = M + "categorical.rs::accumulate_nonzero_probabilities"
 for pm, tier in (("table_u8_p8", "quick"), ("table_u8_p7", "quick")):
@@ -392,11 +392,9 @@ kani("bits::stack_pop_then_push", ["C16", "C18"], fns=[S + "StackCoder::read_bit
      text="after n writes, k<=2 reads, one write: export == packing of the remaining bits ++ [y]")
 kani("huffman::f32_n3", ["C15"], kind="bounded", bound="3 symbols, f32 weights (all bit patterns)", timeout=1800, tier="thorough",
      fns=[HF + "EncoderHuffmanTree::from_float_probabilities", HF + "DecoderHuffmanTree::from_float_probabilities", HF + "NonNanFloatCore"])
-kani("models::quantizer_search_u8", ["C03", "C10", "C20"], kind="bounded", bound="step-shaped CDFs (symbolic threshold); all supports, hints, quantiles of u8 symbols", timeout=7200, tier="thorough",
-     fns=[M + "quantize.rs::<LeakilyQuantizedDistribution as DecoderModel>::quantile_function"],
-     text="search terminates, symbol in support, interval holds the quantile, == encoder view; any support incl. 0..=255, any hint")
-kani("models::quantizer_search_i8", ["C03", "C10", "C20"], kind="bounded", bound="step-shaped CDFs; all supports, hints, quantiles of i8 symbols", timeout=7200, tier="thorough",
-     fns=[M + "quantize.rs::<LeakilyQuantizedDistribution as DecoderModel>::quantile_function"])
+# models::quantizer_search_u8 / _i8 (EVERY support of the symbol type symbolic) never finished (> 15 min each on several tries):
+# not registered.  The search is covered for supports of <= 8 symbols anywhere in the type (quick), the full supports
+# 0..=255 / -128..=127, 100..=255, -10..=20 and the wide signed support -100..=100 (thorough), all with step-shaped CDFs.
 # models::generic_decoder_* / generic_encoder_* (to_generic_decoder_model / to_generic_encoder_model on 2-symbol tables) exhaust
 # CBMC's memory (Vec::extend over an impl-Iterator chain; hashbrown): measured, not registered.  The conversions are
 # covered only through symbol_table (rows == encoder view), from which both conversions are built.
